@@ -1420,6 +1420,11 @@ def correspond(ctx: Ctx) -> None:
         "and every ancestor, systematic (fixed models) and random single-edit JSON mutants (distinct by document), XML mutants (oracle "
         "only); plus base64 texts (all strings <= 5 over 7 character classes + random) and identifiers for the naming functions"
     )
+    ctx.assumptions += [
+        "xml_roundtrip: py.intOk / floatsOk = the CPython facts int(str(i)) == i and repr(float(repr(x))) == repr(x) (oracle table; exercised by every real round trip)",
+        "Model/SdkXml.lean is stated for documents that xml.etree iterparse reads in one chunk (< 16 KiB); larger and not-well-formed documents are covered by the direct oracle only",
+        "the abstract meta-model is read from the intermediate symbol table the generator consumed; constructors / attribute storage of the generated types module are not modelled",
+    ]
     _run(ctx, True)
 
 
